@@ -131,3 +131,29 @@ class SolveTrace:
             else:
                 cls.solve = orig
         return False
+
+
+# --------------------------------------------------------------------------- status log (harness-side wrapper)
+
+STATUS_LOG = []
+
+
+def instrument_statuses(fp):
+    """record the solver's model status after every SolverWrapper.optimize() (/repo is not touched): an inconclusive
+    run (time limit, solve error) must not be mistaken for a verdict by an oracle that compares solved / unsolved.
+    Returns the shared list; callers clear it before a run and read it afterwards."""
+    SW = fp.utils.solverwrapper.SolverWrapper
+    if getattr(SW, "_fpv_status_wrapped", False):
+        return STATUS_LOG
+    orig = SW.optimize
+
+    def optimize(self, *a, **k):
+        r = orig(self, *a, **k)
+        try:
+            STATUS_LOG.append(str(self.get_model_status()))
+        except Exception:
+            STATUS_LOG.append("?")
+        return r
+    SW.optimize = optimize
+    SW._fpv_status_wrapped = True
+    return STATUS_LOG
